@@ -471,7 +471,7 @@ Section Reads.
   Let n := Z.of_nat (length bytes).
 
   Lemma nth_byte_app i : 0 <= i < n -> nth_byte (bytes ++ extra) i = nth_byte bytes i.
-  Proof. intros H. unfold nth_byte. apply app_nth1. subst n. lia. Qed.
+  Proof. intros H. rewrite !nth_byte_nth. apply app_nth1. subst n. lia. Qed.
 
   Lemma le_value_app k : forall o, 0 <= o -> o + Z.of_nat k <= n ->
     le_value (bytes ++ extra) o k = le_value bytes o k.
